@@ -143,6 +143,23 @@ def _refers(n, name):
     return isinstance(n, dict) and n.get("k") == "path" and n["s"] == name
 
 
+INDEX = None  # set by the harness: the crate index, used to look through private helpers
+
+
+def _helper_level(method):
+    """(level, inner method) if every function called `method` generates `self` through one generator call with an explicit level"""
+    if INDEX is None:
+        return None
+    cands = [f for f in INDEX.fns if f.name == method and f.body and f.base == "Expression"]
+    res = set()
+    for f in cands:
+        inner = [(x, _level_arg(x["args"])) for x in sir.walk(f.body) if x.get("k") == "mcall" and sir.expr_str(sir.strip_ref(x["recv"])) == "self" and _level_arg(x["args"])]
+        if len(inner) != 1:
+            return None
+        res.add((inner[0][1], inner[0][0]["m"]))
+    return list(res)[0] if len(res) == 1 else None
+
+
 def arm_events(body, names):
     """Source-order events of an arm: ('child', binding, level, via) for calls that generate/print a child with an
     explicit ExpressionLevel, ('lit', text) for literal text written. `names` = binding names of the child fields."""
@@ -155,6 +172,12 @@ def arm_events(body, names):
             if lvl and recv.get("k") == "path" and recv["s"] in names:
                 ev.append(("child", recv["s"], lvl, n["m"]))
                 continue
+            if not lvl and recv.get("k") == "path" and recv["s"] in names:
+                # a private helper that generates `self` at a fixed level (extracting one is not a change of behaviour)
+                h = _helper_level(n["m"])
+                if h:
+                    ev.append(("child", recv["s"], h[0], h[1]))
+                    continue
             wf = sir.write_fmt_call(n)
             if wf:
                 _t, pieces = wf
